@@ -196,6 +196,40 @@ class Ctx:
         ):
             self._absorb(res)
 
+    def bfs(self, roots, expand, depth: int, chunk: int = 400, on_level=None) -> int:
+        """Level-synchronous breadth-first search with global deduplication.
+
+        roots: list of (key, state) ; expand(list_of_states) -> (Acc, [(key, state), ...])
+        is run on the worker pool for chunks of the frontier; `state` must be picklable
+        (usually the operation history: workers rebuild the object by replay).
+        Returns the number of distinct states seen."""
+        seen = set(k for k, _ in roots)
+        frontier = [s for _, s in roots]
+        level = 0
+        while frontier and level < depth:
+            chunks = [frontier[i : i + chunk] for i in range(0, len(frontier), chunk)]
+            nxt = []
+            if self.jobs <= 1 or len(chunks) <= 1:
+                results = (_worker_call((expand, c)) for c in chunks)
+            else:
+                results = self.pool().imap_unordered(_worker_call, [(expand, c) for c in chunks], 1)
+            for res in results:
+                if isinstance(res, Acc):
+                    self._absorb(res)  # harness error
+                    continue
+                acc, succ = res
+                self._absorb(acc)
+                for k, st in succ:
+                    if k not in seen:
+                        seen.add(k)
+                        nxt.append(st)
+            frontier = nxt
+            level += 1
+            if on_level is not None:
+                on_level(level, len(frontier), len(seen))
+        self.bfs_closed = not frontier
+        return len(seen)
+
     def _absorb(self, res: Acc) -> None:
         if "harness_error" in res.notes:
             raise HarnessError("\n".join(res.notes["harness_error"]))
